@@ -440,7 +440,7 @@ def merge_evidence(mod, pid, tier, seed, results, wall, nviol, skipped, crashes,
     evals += int(st.get("evaluations", 0))
     keys.update(st.get("nontrivial", []))
     for k, v in (st.get("faults") or {}).items():
-      faults[k] = faults.get(k, 0) + v
+      faults[k] = max(faults.get(k, 0), v) if "worst" in k else faults.get(k, 0) + v  # "worst_*" gauges are maxima, everything else counts
     for k, v in (st.get("skipped") or {}).items():
       skips[k] = skips.get(k, 0) + v
     for k, v in (st.get("sets") or {}).items():
